@@ -62,9 +62,8 @@ def ensure_gosync():
     """Build the translator if needed and regenerate coq/Gen from the working tree when it changed."""
     with Lock():
         exe = os.path.join(BUILD, "gosync")
-        src = os.path.join(ROOT, "go", "gosync", "main.go")
-        src2 = os.path.join(ROOT, "go", "gosync", "big5.go")
-        newest = max(os.path.getmtime(p) for p in (src, src2) if os.path.exists(p))
+        gd = os.path.join(ROOT, "go", "gosync")
+        newest = max(os.path.getmtime(os.path.join(gd, f)) for f in os.listdir(gd) if f.endswith(".go"))
         if not os.path.exists(exe) or os.path.getmtime(exe) < newest:
             rc, out = sh(["go", "build", "-o", exe, "."], cwd=os.path.join(ROOT, "go", "gosync"), env=GOENV)
             if rc != 0:
